@@ -38,7 +38,7 @@ type FuncContract struct {
 	Modifies []*Clause
 	HasMod   bool
 	Loops    map[int]*LoopContract
-	Trusted  bool // external/assumed: body not verified
+	Trusted  bool      // external/assumed: body not verified
 	Params   []VarDecl // for trusted declarations that name their parameters
 	Results  []VarDecl
 	Opaque   bool // body not verified although in module (recorded as assumption)
